@@ -111,10 +111,31 @@ def tables_line():
 
 
 # ---------------------------------------------------------------- drivers
-def run_driver(lines, gen=False, timeout=3600):
-    """pipe request lines through the compiled driver (or the interpreted Gen driver); returns answers"""
+def run_driver(lines, gen=False, timeout=3600, prefix=None, parallel=True):
+    """pipe request lines through the compiled driver (or the interpreted Gen driver); returns answers.
+    Stateless requests are spread over up to 16 driver processes (each first receives `prefix`, the tables line)."""
     if not lines:
         return []
+    nproc = min(16, os.cpu_count() or 1)
+    if parallel and not gen and len(lines) >= 4 and nproc > 1:
+        from concurrent.futures import ThreadPoolExecutor
+        # contiguous chunks of roughly equal total request size
+        total = sum(len(l) for l in lines) + 200 * len(lines)
+        chunks, cur, acc = [], [], 0
+        for l in lines:
+            cur.append(l); acc += len(l) + 200
+            if acc >= total / nproc:
+                chunks.append(cur); cur, acc = [], 0
+        if cur: chunks.append(cur)
+        def work(ch):
+            pre = [prefix] if prefix else []
+            out = run_driver(pre + ch, gen=False, timeout=timeout, parallel=False)
+            return out[len(pre):]
+        with ThreadPoolExecutor(max_workers=nproc) as ex:
+            parts = list(ex.map(work, chunks))
+        return [o for part in parts for o in part]
+    if prefix:
+        return run_driver([prefix] + lines, gen=gen, timeout=timeout, parallel=False)[1:]
     data = ('\n'.join(lines) + '\n').encode()
     if gen:
         cmd = ['lake', 'env', 'lean', '--run', 'GenMain.lean']
